@@ -48,7 +48,9 @@ Section Frames.
       colliding. *)
   Definition collision (s : state) (a : addr) : bool := negb (nonce s a =? 0) || has_code s a.
 
-  Fixpoint run_effect (self : addr) (s : state) (ef : effect) {struct ef} : state :=
+  (** [d] is evm.depth at the time the frame is opened (0 for the transaction's own Call / Create;
+      the code of a frame opened at depth d runs at depth d + 1). *)
+  Fixpoint run_effect (d : N) (self : addr) (s : state) (ef : effect) {struct ef} : state :=
     match ef with
     | ESelfDestruct ben => op_selfdestruct s self ben
     | EFrame k to v ok body =>
@@ -56,8 +58,10 @@ Section Frames.
           (fix go (l : list effect) (st : state) {struct l} : state :=
              match l with
              | [] => st
-             | e :: r => go r (run_effect ctx st e)
+             | e :: r => go r (run_effect (d + 1) ctx st e)
              end) body in
+        if CALL_CREATE_DEPTH <? d then s  (* ErrDepth *)
+        else
         match k with
         | KCall =>
             if (negb (v =? 0)) && negb (can_transfer (bal s self) v) then s
@@ -83,10 +87,10 @@ Section Frames.
         end
     end.
 
-  Fixpoint run_effects (ctx : addr) (l : list effect) (st : state) : state :=
+  Fixpoint run_effects (d : N) (ctx : addr) (l : list effect) (st : state) : state :=
     match l with
     | [] => st
-    | e :: r => run_effects ctx r (run_effect ctx st e)
+    | e :: r => run_effects d ctx r (run_effect d ctx st e)
     end.
 
   (** What the harness records about the top frame of a transaction. *)
@@ -101,7 +105,7 @@ Section Frames.
   (** The interpreter as far as the envelope is concerned: evm.Create / evm.Call at depth 0. *)
   Definition run_of_tree (o : frame_oracle) (c : bool) (s : state) (m : msg) (g : N) : run_result R :=
     let to := match m_to m with Some a => a | None => fo_target o end in
-    mkRun (run_effect (m_from m) s (EFrame (if c then KCreate else KCall) to (m_value m) (fo_ok o) (fo_body o)))
+    mkRun (run_effect 0 (m_from m) s (EFrame (if c then KCreate else KCall) to (m_value m) (fo_ok o) (fo_body o)))
           (fo_gas_left o) (fo_refund o) (fo_err o).
 
   (** Syntactic measures used by the theorems. *)
